@@ -292,9 +292,20 @@ package vm
 // finalN(s): ghost counter of Finalise calls on s (C06: every non-simulated Apply ends with exactly one Finalise, which
 // empties the per-transaction object cache, whether the message was applied or failed).
 //@ model finalN(*CommitStateDB) int
-//@ assume func (*CommitStateDB).Finalise
+// VERIFIED part (C06.evm-cache-empty): on every path, error or not, the per-transaction object cache is empty when
+// Finalise returns — no state object (read-only or dirty) survives into the next transaction of the block. The ghost
+// counter and the frame over the native stores stay trusted (the loop body writes through the unverified keeper).
+// the write-through helpers of the loop body are not verified (no clauses: they may change anything)
+//@ assume func (*CommitStateDB).updateStateObject
+//@ assume func (*CommitStateDB).deleteStateObject
+//@ assume func (*stateObject).commitState
+//@ assume func (*stateObject).commitCode
+//@ func (*CommitStateDB).Finalise
+//@   requires s != nil
+//@   trustframe
 //@   modifies *s, evmAux(s), evmRefund(s), finalN(s), allmodel(bal), allmodel(balTotal), allmodel(vHas), allmodel(vVal)
-//@   ensures finalN(s) == old(finalN(s)) + 1
+//@   trusts finalN(s) == old(finalN(s)) + 1
+//@   ensures len(s.stateObjects) == 0 // C06.evm-cache-empty
 
 // Apply: the contract of TransitionDb carried to the transaction object (msg = etx, state = etx.stateDB, gas pool =
 // etx.gaspool); for a non-simulated transaction Finalise follows in every case, error or not.
@@ -315,3 +326,37 @@ package vm
 //@   ensures err == nil && result0.Err != nil ==> evmExec(etx.stateDB) == old(evmExec(etx.stateDB))                           // C17.reverted-moves-nothing
 //@   ensures err == nil && etx.to != nil ==> evmNonce(etx.stateDB)[ethKey(ethAddrOf(etx.from))] == wrapu64(old(evmNonce(etx.stateDB))[ethKey(ethAddrOf(etx.from))] + 1)   // C17.nonce-plus-one
 //@   ensures err == nil && etx.to == nil && result0.Err == nil ==> evmNonce(etx.stateDB)[ethKey(ethAddrOf(etx.from))] == wrapu64(old(evmNonce(etx.stateDB))[ethKey(ethAddrOf(etx.from))] + 1)   // C17.nonce-plus-one
+
+// ---------------------------------------------------------------- C17.journal-prev: a balance change is journalled with the balance BEFORE it
+// "reverted moves nothing" rests on the journal: undoing a balanceChange sets the balance back to the entry's `prev`.
+// Verified here for the three balance mutators of a state object: whenever the balance is changed, exactly one entry is
+// appended first, it is a balanceChange, and its prev is the balance the account had when the mutator was entered.
+// (The revert loop itself, journal.revert / balanceChange.revert, stays inside the assumed EVM Call/Create contracts.)
+//@ interface journalEntry
+//@   method dirtied
+//@     modifies nothing
+//@   method revert
+
+//@ func (*journal).append
+//@   requires j != nil
+//@   modifies *j, elems(j.entries), elems(j.dirties), mapof(j.addressToJournalIndex)
+//@   ensures len(j.entries) == old(len(j.entries)) + 1 && j.entries[old(len(j.entries))] == entry   // C17.journal-prev
+
+//@ func (*stateObject).AddBalance
+//@   requires so != nil && so.stateDB != nil && so.stateDB.journal != nil && so.account != nil && so.account.Coins.Amount != nil && amount != nil
+//@   ensures old(big(amount)) != 0 ==> len(so.stateDB.journal.entries) == old(len(so.stateDB.journal.entries)) + 1   // C17.journal-prev
+//@   ensures old(big(amount)) != 0 ==> dyntype(so.stateDB.journal.entries[old(len(so.stateDB.journal.entries))], "balanceChange") && big(unbox(so.stateDB.journal.entries[old(len(so.stateDB.journal.entries))], "balanceChange").prev) == old(big(so.account.Coins.Amount))   // C17.journal-prev
+//@   ensures old(big(amount)) != 0 ==> big(so.account.Coins.Amount) == old(big(so.account.Coins.Amount)) + old(big(amount))   // C17.journal-prev
+
+//@ func (*stateObject).SubBalance
+//@   requires so != nil && so.stateDB != nil && so.stateDB.journal != nil && so.account != nil && so.account.Coins.Amount != nil && amount != nil
+//@   requires big(so.account.Coins.Amount) >= big(amount)
+//@   ensures old(big(amount)) != 0 ==> len(so.stateDB.journal.entries) == old(len(so.stateDB.journal.entries)) + 1   // C17.journal-prev
+//@   ensures old(big(amount)) != 0 ==> dyntype(so.stateDB.journal.entries[old(len(so.stateDB.journal.entries))], "balanceChange") && big(unbox(so.stateDB.journal.entries[old(len(so.stateDB.journal.entries))], "balanceChange").prev) == old(big(so.account.Coins.Amount))   // C17.journal-prev
+//@   ensures old(big(amount)) != 0 ==> big(so.account.Coins.Amount) == old(big(so.account.Coins.Amount)) - old(big(amount))   // C17.journal-prev
+
+//@ func (*stateObject).SetBalance
+//@   requires so != nil && so.stateDB != nil && so.stateDB.journal != nil && so.account != nil && so.account.Coins.Amount != nil
+//@   ensures len(so.stateDB.journal.entries) == old(len(so.stateDB.journal.entries)) + 1   // C17.journal-prev
+//@   ensures dyntype(so.stateDB.journal.entries[old(len(so.stateDB.journal.entries))], "balanceChange") && big(unbox(so.stateDB.journal.entries[old(len(so.stateDB.journal.entries))], "balanceChange").prev) == old(big(so.account.Coins.Amount))   // C17.journal-prev
+//@   ensures so.account.Coins.Amount == amount   // C17.journal-prev
